@@ -27,7 +27,10 @@ Theorem model_meets_spec : forall c,
   has_model (c_fn c) = true -> in_domain c = true -> exists r, m_call c = Some r /\ spec_ok c r = true.
 Proof.
   intros c Hm Hd.
-  destruct (c_fn c) eqn:F; try discriminate Hm;
+  assert (s_is_if_not (c_fn c) = false) as NI.
+  { destruct (s_is_if_not (c_fn c)) eqn:E; [|reflexivity]. exfalso. unfold in_domain in Hd.
+    destruct (c_fn c); try discriminate E; rewrite andb_false_r in Hd; discriminate. }
+  destruct (c_fn c) eqn:F; try discriminate Hm; try discriminate NI;
     try (apply functional_ok; [rewrite F; reflexivity|rewrite F; reflexivity|]);
     try (apply scan_meets_spec; [rewrite F; reflexivity|exact Hd]);
     try (apply remove_meets_spec; [rewrite F; reflexivity|exact Hd]);
@@ -125,8 +128,12 @@ Definition w_reduce_start := mk FReduce 0 0 P0 (SList [1;2;3]) SNil (Some 3%nat)
 Definition w_dups_ne := mk FRemoveDuplicates 0 0 P0 (SList [1;2;1]) SNil None None None (TTest TNe) CAbsent false.
 Definition w_dups_from_end := mk FRemoveDuplicates 0 0 P0 (SList [1;2;3]) SNil None None None (TTest TLt) CAbsent true.
 
+(* (remove-if-not (lambda (x) (eql 0 x)) '(0 1 2)) => undefined-function, the language says (0) *)
+Definition w_remove_if_not := mk FRemoveIfNot 0 0 P0 (SList [0;1;2]) SNil None None None TDefault CAbsent false.
+Definition w_find_if_not := mk FFindIfNot 0 0 P0 (SVec [0;1;2]) SNil None None None TDefault CAbsent false.
+
 Definition refutation_witnesses : list call :=
-  [w_test_not; w_subst_test_not; w_setdiff_test_not; w_count_nil; w_subst_count; w_subst_count0; w_subst_count_neg;
+  [w_remove_if_not; w_find_if_not; w_test_not; w_subst_test_not; w_setdiff_test_not; w_count_nil; w_subst_count; w_subst_count0; w_subst_count_neg;
    w_count_utf8; w_assoc_nil; w_assoc_order; w_search_from_end; w_search_empty; w_mismatch_from_end; w_mismatch_start;
    w_replace_end; w_fill_end; w_subseq_nil; w_every_nil; w_mapcar_nil; w_subsetp_nil; w_reduce_nil; w_map_nil; w_merge_nil;
    w_merge_tie; w_some_value; w_reduce_empty; w_reduce_start; w_dups_ne; w_dups_from_end].
@@ -228,6 +235,9 @@ Lemma reverse_loops : forall l, m_reverse_list l = rev l /\ go_reverse l = rev l
 Proof. intros l. split; [exact (m_reverse_is_rev l)|exact (go_reverse_is_rev l)]. Qed.
 
 Lemma test_not_refuted : refutes w_test_not = true /\ refutes w_subst_test_not = true /\ refutes w_setdiff_test_not = true.
+Proof. vm_compute. repeat split; reflexivity. Qed.
+Lemma if_not_missing_refuted : refutes w_remove_if_not = true /\ refutes w_find_if_not = true /\
+  m_call w_remove_if_not = Some (RErr EUndefined) /\ s_call w_remove_if_not = Some (RSeq [0]) /\ s_call w_find_if_not = Some (RElt 1).
 Proof. vm_compute. repeat split; reflexivity. Qed.
 Lemma count_nil_refuted : refutes w_count_nil = true.
 Proof. vm_compute. reflexivity. Qed.
